@@ -80,6 +80,8 @@ def replay(beh, cfg, tol=None):
         trace, extra = G.run_scenario(sc, tape_mode="script", script=[], keep_raw=True, provider=prov)
     except TapeMismatch as e:
         return [("replay.draw_range" if e.reason == "range" else "replay.not_followed", -1, str(e))], None, sc
+    except G.NotObservable as e:
+        return [("replay.not_followed", -1, "abstract state not observable: %s" % e)], None, sc
     raws = extra["raws"]
     extra_rows = extra["rows_after"]
     exact = tol is None
